@@ -166,6 +166,79 @@ func modelPathEqual(a, b []PStep) bool {
 	return true
 }
 
+// ctyPathVia builds the cty.Path of a model path through the public
+// constructors: style 0 = step literals, 1 = Path.Index / Path.GetAttr chains
+// (IndexPath / GetAttrPath for the first step), 2 = the typed conveniences
+// IndexInt / IndexString where the key is a plain int or string (else as 1).
+// Every intermediate path of a chain is kept and re-checked afterwards: the
+// builders document "returns a new Path", so extending a path must not
+// disturb a path built earlier. ok=false reports such a disturbance.
+func ctyPathVia(p []PStep, style int) (out cty.Path, ok bool) {
+	if style%3 == 0 {
+		return ctyPath(p), true
+	}
+	var inter []cty.Path
+	var cur cty.Path
+	for i, s := range p {
+		// the receiver gets spare capacity, as a path assembled with append
+		// (or handed out by Walk) has: a builder that appended in place would
+		// let the sibling built below overwrite the step just added
+		base := append(make(cty.Path, 0, len(cur)+4), cur...)
+		var next cty.Path
+		switch {
+		case s.Attr != nil:
+			if i == 0 {
+				next = cty.GetAttrPath(*s.Attr)
+			} else {
+				next = base.GetAttr(*s.Attr)
+			}
+		default:
+			k := *s.Key
+			plainInt := false
+			var iv int64
+			if k.St == spec.Known && len(k.Marks) == 0 && k.T.K == spec.KNumber && !k.N.IsInf() {
+				f := k.N.Float()
+				if f.IsInt() {
+					if x, acc := f.Int64(); acc == big.Exact && x > -(1<<31) && x < 1<<31 {
+						plainInt, iv = true, x
+					}
+				}
+			}
+			plainStr := k.St == spec.Known && len(k.Marks) == 0 && k.T.K == spec.KString
+			switch {
+			case style%3 == 2 && plainInt && i == 0:
+				next = cty.IndexIntPath(int(iv))
+			case style%3 == 2 && plainInt:
+				next = base.IndexInt(int(iv))
+			case style%3 == 2 && plainStr && i == 0:
+				next = cty.IndexStringPath(k.S)
+			case style%3 == 2 && plainStr:
+				next = base.IndexString(k.S)
+			case i == 0:
+				next = cty.IndexPath(spec.MustBuild(k))
+			default:
+				next = base.Index(spec.MustBuild(k))
+			}
+		}
+		if i > 0 {
+			_ = base.GetAttr("__sibling__")
+			_ = base.Index(cty.StringVal("__sibling__"))
+		}
+		inter = append(inter, next)
+		cur = next
+	}
+	ref := ctyPath(p)
+	for i, q := range inter {
+		if !pathEqualOwn(q, ref[:i+1]) {
+			return cur, false
+		}
+	}
+	if cur == nil {
+		cur = cty.Path{}
+	}
+	return cur, true
+}
+
 // ctyPath builds the cty.Path of a model path.
 func ctyPath(p []PStep) cty.Path {
 	out := make(cty.Path, 0, len(p))
